@@ -7,6 +7,18 @@ import os
 VERIF = os.path.dirname(os.path.dirname(os.path.abspath(__file__)))
 
 CHECKS = {
+    "C03": dict(
+        technique="runtime monitor: reference-model oracle (hashlib + independent pure-Python MD2/MD4/RIPEMD/Keccak/SP 800-185/RFC 9861 models, stdlib hmac, reference CMAC/Poly1305) plus acceptance oracle for every MAC",
+        text=("Every digest/XOF output/MAC the library returns is compared with the standard's value computed by hashlib and/or ref/hashes.py (both where both exist; oracle "
+              "disagreement is inconclusive): every message length 0..3*block+2 for the Merkle-Damgard hashes and 0..2*rate+2 for every sponge instance plus padding/rate/"
+              "8192-byte-chunk boundaries, XOF reads split over several calls, cSHAKE/KMAC/TupleHash customisation strings up to > rate and 8192 bytes, TurboSHAKE domains "
+              "01..7F, KangarooTwelve around the chunk boundaries incl. long customisation strings with update() never called, all BLAKE2 digest sizes x key lengths, HMAC over "
+              "every hash with keys shorter/equal/longer than the block, CMAC over six block ciphers with every mac_len, Poly1305-AES/ChaCha20 incl. r/s arithmetic edges; "
+              "all construction paths (new(data), segmented update with three buffer types, copy(), obj.new(), update_after_digest).  Acceptance oracle on every MAC: verify/"
+              "hexverify must accept iff the candidate equals the model tag (true tag, bit flips, every truncation, extensions, tag||tag, tag under another key, all-zero) and "
+              "reject with ValueError."),
+        note="Trusted: hashlib (OpenSSL) and ref/hashes.py self-tests (RFC/NIST vectors); MD5/SHA-1/SHA-2/BLAKE2 have hashlib as the only oracle. Messages up to 2 MiB; bit-length counter carries beyond 2^32 bits are not reached.",
+        ref="DESIGN.md §4 C03"),
     "C11": dict(
         technique="runtime monitor: state recovery from outputs (ECB-decrypting CTR keystream to recover counter blocks; ChaCha20 keystream vs model at the history-implied position; captured HPKE nonces) over limit-crossing call histories",
         text=("CTR keystream (encrypt of zeros) of every block cipher is ECB-decrypted block by block to recover the counter block that produced it: prefix/suffix "
